@@ -11,6 +11,8 @@ THEOREMS = ["EngineModel.Properties.C11V2." + t for t in [
     "C11V2_inv_wfRaw",
     "C11V2_reachable_wfRaw",
     "C11V2_reachable_structure",
+    "C11V2_wfRaw_gives_invariants",
+    "C11V2_wellformed_stays_wellformed",
     "C11V2_reachable_wfChains_partial",
     "C11V2_chains_counterexample",
 ]] + ["EngineModel.Properties.C09.C09_crate_ddl_same_in_all_2x_schemas"]
